@@ -541,7 +541,7 @@ impl St {
                 let r = (s.handle[h].expect("empty") == s.handle[h2].expect("empty")) as u64;
                 fin!(s, Res::V(r))
             }
-            K::ArcRawRoundTrip { .. } => fin!(s, Res::U),
+            K::ArcRawRoundTrip { .. } | K::ArcHold { .. } => fin!(s, Res::U),
             K::ArcIncStrong { h, to } => {
                 let a = s.handle[h].expect("ill-formed: empty handle") as usize;
                 s.arc_cnt[a] += 1;
